@@ -9,3 +9,7 @@ Theorem C12_strict : C12_strict_stmt.              Proof. exact Proofs.C12.C12_s
 Theorem C12_equal_ticks : C12_equal_ticks_stmt.    Proof. exact Proofs.C12.C12_equal_ticks. Qed.
 Theorem C12_events : C12_events_stmt.              Proof. exact Proofs.C12.C12_events. Qed.
 Theorem C12_note : C12_note_stmt.                  Proof. exact Proofs.C12.C12_note. Qed.
+
+(** Chart level: events of any tracks of a parsed chart. *)
+From CP Require Import Spec.ChartTimed Proofs.ChartTimed.
+Theorem C12_chart : C12_chart_stmt.  Proof. exact Proofs.ChartTimed.C12_chart. Qed.
